@@ -6,8 +6,8 @@
    `reachable cfg cw iw mf s` = s is the state after some op list from `init cfg cw iw mf`, with
    message lengths >= 0 and max frame >= 1.  This file holds only the property theorems; each is
    closed by `exact` of a lemma of Proofs/C07Proofs.v and followed by Print Assumptions. *)
-From Coq Require Import ZArith List Bool.
-From GV Require Import Model.FlowSend Proofs.C07Proofs Proofs.C07Examples.
+From Coq Require Import String ZArith List Bool.
+From GV Require Import Lib.Str Gen.FactsC07 Model.FlowSend Proofs.C07Proofs Proofs.C07Examples.
 Import ListNotations.
 Open Scope Z_scope.
 
@@ -177,3 +177,26 @@ Theorem C07_broken_is_final :
   forall s o, broken s = true -> step s o = (s, []).
 Proof. exact broken_is_final. Qed.
 Print Assumptions C07_broken_is_final.
+
+(* (9) tie to the source: the control skeleton of Stream.send_data, process_window_updated,
+   process_remote_settings_changed and the pause/resume plumbing, regenerated from /repo on every
+   run (tools/facts_C07.py -> Gen/FactsC07.v), is the one Model/FlowSend.v transcribes ... *)
+Theorem C07_source_skeleton :
+  sk_send_data = map s2z expected_send_data /\
+  sk_process_window_updated = map s2z expected_window_updated /\
+  sk_process_remote_settings_changed = map s2z expected_settings_changed /\
+  sk_connection_pause_writing = [s2z "call:self.write_ready.clear"] /\
+  sk_connection_resume_writing = [s2z "call:self.write_ready.set"] /\
+  sk_protocol_pause_writing = [s2z "call:self.connection.pause_writing"] /\
+  sk_protocol_resume_writing = [s2z "call:self.connection.resume_writing"].
+Proof. exact source_skeleton. Qed.
+Print Assumptions C07_source_skeleton.
+
+(* ... in particular send_data has exactly two suspension points, both before the window is read or
+   inside the `not window > 0` branch: window read, chunk computation and h2.send_data are atomic *)
+Theorem C07_source_no_suspension_between_read_and_send :
+  awaits_in sk_send_data = 2%nat /\
+  awaits_in (skipn 8 sk_send_data) = 0%nat /\
+  nth_error sk_send_data 2 = Some (s2z "call:self._h2_connection.local_flow_control_window").
+Proof. exact source_two_suspension_points. Qed.
+Print Assumptions C07_source_no_suspension_between_read_and_send.
